@@ -166,6 +166,15 @@ def h_titration(eng, ff, ffout, group, position, keep_chain=True, start=1):
     lg = logging.getLogger("pdb2pqr")
     old_level = lg.level
     lg.setLevel(logging.WARNING)
+    # the process may already have logged many of the repetitive warnings pdb2pqr rate-limits (a structure with a
+    # dozen unknown hetero groups, or earlier structures handled by the same interpreter): the titration warnings
+    # must still get through
+    if eng.flag("rate_limited_warnings_logged_before"):
+        from pdb2pqr.config import FILTER_WARNINGS, FILTER_WARNINGS_LIMIT
+
+        for prefix in FILTER_WARNINGS:
+            for k in range(FILTER_WARNINGS_LIMIT + 2):
+                logging.getLogger("pdb2pqr.biomolecule").warning(f"{prefix} XX{k}")
     lg.addHandler(cap)
     try:
         with patched((main, "run_propka", _propka_stub(pkas))):
